@@ -16,6 +16,7 @@ CONSTANTS
   WriterGuard = TRUE
   Defensive = FALSE
   EnvOn = TRUE
+  Bug = "none"
 INIT Init
 NEXT Next
 CHECK_DEADLOCK FALSE
